@@ -13,7 +13,7 @@
                              that is not a JSON array of non-blank strings
      readable fm c id        frame id exists and its metadata grants c
      no_tenant c             no context, or tenant absent / blank. *)
-From MV Require Import Base.Prelude Model.JsonStr Model.Acl Proofs.AclProofs.
+From MV Require Import Base.Prelude Model.JsonStr Model.Acl Proofs.AclProofs Corr.C12.
 
 (* (1) The decision, for ALL metadata maps and contexts (what the hook acl_decide returns):
        None iff the caller has no usable tenant; otherwise allowed iff `grants`, and the three
@@ -233,6 +233,70 @@ Theorem C12_adaptive_search_enforce_without_tenant_outside_known :
 Proof. exact adaptive_enforce_no_tenant_outside_known. Qed.
 Print Assumptions C12_adaptive_search_enforce_without_tenant_outside_known.
 
+(* (8) COMPOSITION.  (a) Any later stage that only draws from readable lists (RRF fusion,
+       re-ranking, promotion of corrections / temporal extremes, diversification, adaptive
+       cut-off, sampling) returns a readable list. *)
+Theorem C12_stage_drawing_from_readable_lists_is_readable :
+  forall json_str json_arr (P : Type) (frame_meta : N -> option meta) (c : acl_context)
+         (post : list (list (hit P)) -> list (hit P)) (ls : list (list (hit P))),
+    draws_from post ->
+    Forall (fun l => Forall (fun h => readable json_str json_arr frame_meta c (h_frame h)) l) ls ->
+    Forall (fun h => readable json_str json_arr frame_meta c (h_frame h)) (post ls).
+Proof. exact draws_from_readable. Qed.
+Print Assumptions C12_stage_drawing_from_readable_lists_is_readable.
+
+(* (b) ask with its candidate lists spelled out -- filtered lists (search / vector searches
+       under the same context), UNFILTERED lists (timeline sampling: zero-hit fallback and
+       analytical questions), an arbitrary fusion stage -- and the ACL pass as the last step:
+       no leak whatever went in. *)
+Theorem C12_ask_pipeline_no_leak :
+  forall json_str json_arr (P : Type) (frame_meta : N -> option meta) (C : Type) (build_context : list (hit P) -> C)
+         (fuse : list (list (hit P)) -> list (hit P)) (filtered unfiltered : list (list (hit P)))
+         (total : N) (context_only : bool) (c : acl_context) (a : ask_response P C),
+    ask_pipeline json_str json_arr P frame_meta C build_context fuse filtered unfiltered total context_only (Some c) Enforce = Ok a ->
+    Forall (fun h => readable json_str json_arr frame_meta c (h_frame h)) (a_hits a) /\
+    Forall (fun ci => readable json_str json_arr frame_meta c (snd ci)) (a_citations a) /\
+    Forall (fun fr => readable json_str json_arr frame_meta c (snd fr)) (a_fragments a).
+Proof. exact ask_pipeline_no_leak. Qed.
+Print Assumptions C12_ask_pipeline_no_leak.
+
+(* (c) WITHOUT the final pass the response is readable only when nothing unfiltered went in
+       (all lists filtered, fusion only draws from them) -- see C12_no_final_pass_leaks below
+       for what happens otherwise (the seeded change C12-1). *)
+Theorem C12_ask_without_final_pass_needs_all_lists_filtered :
+  forall json_str json_arr (P : Type) (frame_meta : N -> option meta) (C : Type) (build_context : list (hit P) -> C)
+         (fuse : list (list (hit P)) -> list (hit P)) (filtered : list (list (hit P)))
+         (total : N) (context_only : bool) (c : acl_context) (a : ask_response P C),
+    draws_from fuse ->
+    Forall (fun l => Forall (fun h => readable json_str json_arr frame_meta c (h_frame h)) l) filtered ->
+    ask_pipeline_no_final_pass P C build_context fuse filtered [] total context_only = Ok a ->
+    Forall (fun h => readable json_str json_arr frame_meta c (h_frame h)) (a_hits a).
+Proof. exact ask_no_final_pass_readable_if_all_filtered. Qed.
+Print Assumptions C12_ask_without_final_pass_needs_all_lists_filtered.
+
+(* (d) The ACL stage is idempotent, so every Enforce response is a FIXED POINT of the model's
+       last step: re-applying it to the returned hits changes nothing, and ask's citations and
+       context fragments are those derived from exactly the returned hits.  This is the
+       relation the `final` correspondence stream checks on every response of every entry
+       point; a path that bypasses the last step and lets a denied frame through breaks it. *)
+Theorem C12_apply_enforce_fixed_point :
+  forall json_str json_arr (P : Type) (frame_meta : N -> option meta)
+         (hits : list (hit P)) (c : acl_context) (out : list (hit P)) (st : stats),
+    apply_acl json_str json_arr P frame_meta hits (Some c) Enforce = Ok (out, st) ->
+    exists st', apply_acl json_str json_arr P frame_meta out (Some c) Enforce = Ok (out, st').
+Proof. exact apply_enforce_fixed_point. Qed.
+Print Assumptions C12_apply_enforce_fixed_point.
+
+Theorem C12_ask_response_fixed_point :
+  forall json_str json_arr (P : Type) (frame_meta : N -> option meta) (C : Type) (build_context : list (hit P) -> C)
+         (pre : outcome (list (hit P) * N)) (context_only : bool) (c : acl_context) (a : ask_response P C),
+    ask_acl json_str json_arr P frame_meta C build_context pre context_only (Some c) Enforce = Ok a ->
+    (exists st, apply_acl json_str json_arr P frame_meta (a_hits a) (Some c) Enforce = Ok (a_hits a, st)) /\
+    a_citations a = (if context_only then [] else citations_from P 0 (a_hits a)) /\
+    a_fragments a = map (fun h => (h_rank h, h_frame h)) (a_hits a).
+Proof. exact ask_response_fixed_point. Qed.
+Print Assumptions C12_ask_response_fixed_point.
+
 (* ---------------- non-vacuity: concrete instances, by vm_compute, with the serde_json hand model ---------------- *)
 From Coq Require Import Ascii String.
 Definition s (x : String.string) : str := map (fun a => N_of_ascii a) (String.list_ascii_of_string x).
@@ -307,3 +371,33 @@ Example C12_nonvacuous_ask :
   | _ => False
   end.
 Proof. vm_compute. reflexivity. Qed.
+
+(* (8): an analytical ask -- one filtered search list [frame 0; frame 1] and the UNFILTERED timeline
+   list [frames 0,1,2,3]; fusion = concatenation (draws_from).  With the final pass only frames 0, 1
+   come out; without it (seeded change C12-1) the bad-list frame 2 and the missing frame 3 leak,
+   and the `final` runner of Corr/C12.v does not reproduce that response. *)
+Definition ex_filtered : list (list (hit unit)) := [[mkHit 1 0 tt; mkHit 2 1 tt]]%N.
+Definition ex_timeline : list (list (hit unit)) := [[mkHit 1 0 tt; mkHit 2 1 tt; mkHit 3 2 tt; mkHit 4 3 tt]]%N.
+Definition ex_fuse (ls : list (list (hit unit))) : list (hit unit) := List.concat ls.
+
+Example C12_no_final_pass_leaks :
+  match ask_pipeline json_string json_string_array unit ex_frames nat (@List.length _)
+                     ex_fuse ex_filtered ex_timeline 6%N false (Some ex_ctx_role) Enforce,
+        ask_pipeline_no_final_pass unit nat (@List.length _) ex_fuse ex_filtered ex_timeline 6%N false with
+  | Ok a, Ok b =>
+      map (fun h => h_frame h) (a_hits a) = [0; 1; 0; 1]%N /\
+      map (fun h => h_frame h) (a_hits b) = [0; 1; 0; 1; 2; 3]%N /\
+      map snd (a_citations b) = [0; 1; 0; 1; 2; 3]%N /\
+      acl_decide json_string json_string_array ex_bad_list ex_ctx_role = Some (false, false, true) /\
+      MV.Corr.C12.C12_final_one [(0, ex_meta); (1, ex_public); (2, ex_bad_list)]%N
+        (Some (Some (s "tenant-a"), Some (s "bob"), [s "viewer"; s "ANALYST"], []), true, 2%N,
+         map (fun h => (h_rank h, h_frame h)) (a_hits b))
+      <> Ok (map (fun h => (h_rank h, h_frame h)) (a_hits b), a_citations b, a_fragments b)
+  | _, _ => False
+  end.
+Proof. vm_compute. repeat split; discriminate. Qed.
+
+Example C12_draws_from_nonvacuous : draws_from ex_fuse.
+Proof.
+  intros ls h Hin. apply in_concat in Hin as [l [Hl Hh]]. exists l, h. auto.
+Qed.
